@@ -119,29 +119,56 @@ def pick_hidden_pin(node, rng):
 
 
 def bare_vs_wrapped(ctx):
-    """a bare component vs a solver that contains only that component with all pins raised"""
+    """a bare component vs a solver that contains only that component with all pins raised - as a *history* on one instance:
+    the same model object is solved bare and through a wrapper around itself (and around a fresh instance) for a sequence of
+    calls that mixes all parameters given, some given, none given (defaults) and repeats"""
     import props.c04 as c04
     L = impl.lk()
+    rng = ctx.subrng("c02-bare")
     for name, (factory, params) in c04.block_factories().items():
         if name == "FPRGaussian":
             continue
-        kw = {k: (lo + hi) / 2 for k, (lo, hi) in params.items()}
-        ctx.case(("bare", name), tags=["stream:bare-vs-wrapped"])
-        rep = {"kind": "bare", "block": name}
-        try:
-            bare = factory().solve(**kw)
+        required = c04.REQUIRED.get(name, [])
+        m = factory()
+        wrappers = []
+        for inst in (m, factory()):
             sol = L.Solver()
             with sol:
-                factory().put()
+                inst.put()
                 L.raise_pins()
-            wrapped = sol.solve(**kw)
-            for p, i in bare.pin_dic.items():
-                for q, j in bare.pin_dic.items():
-                    a = np.asarray(bare.S)[0, i, j]
-                    b = np.asarray(wrapped.S)[0, wrapped.pin_dic[p], wrapped.pin_dic[q]]
-                    if abs(a - b) > 1e-12:
-                        ctx.violation(f"C02:bare-vs-wrapped:{name}", f"{name}: bare solve and single-component solver differ at ({p.name},{q.name})", rep)
-                        raise StopIteration
+            wrappers.append(sol)
+        calls = []
+        for k in range(6):
+            r = rng.random()
+            if k == 0:
+                kw = {q: (lo + hi) / 2 for q, (lo, hi) in params.items()}
+            elif r < 0.4:
+                kw = {}
+            else:
+                kw = {q: rng.uniform(lo, hi) for q, (lo, hi) in params.items() if rng.random() < 0.6}
+            for q in required:
+                kw.setdefault(q, rng.uniform(*params[q]))
+            calls.append(kw)
+        rep = {"kind": "bare", "block": name}
+        ctx.case(("bare", name), tags=["stream:bare-vs-wrapped"])
+        try:
+            for k, kw in enumerate(calls):
+                # what a *fresh* instance gives for this call is the reference for all three
+                ref = factory().solve(**kw)
+                order = [("bare", lambda: m.solve(**kw)), ("wrapped-same-instance", lambda: wrappers[0].solve(**kw)),
+                         ("wrapped-fresh-instance", lambda: wrappers[1].solve(**kw))]
+                if k % 2:
+                    order = order[1:] + order[:1]
+                for label, fn in order:
+                    got = fn()
+                    for p_, i in ref.pin_dic.items():
+                        for q_, j in ref.pin_dic.items():
+                            a_ = np.asarray(ref.S)[0, i, j]
+                            b_ = np.asarray(got.S)[0, got.pin_dic[p_], got.pin_dic[q_]]
+                            if abs(a_ - b_) > 1e-12:
+                                ctx.violation(f"C02:bare-vs-wrapped:{name}", f"{name}: call {k} {sorted(kw)} ({label}) differs from a fresh bare solve at "
+                                              f"({p_.name},{q_.name}) after the calls {[sorted(c) for c in calls[:k]]}", rep)
+                                raise StopIteration
         except StopIteration:
             continue
         except Exception as e:  # noqa
